@@ -76,16 +76,16 @@ impl FeelYearsAndMonthsDuration {
   }
   /// Returns absolute value of the duration.
   pub fn abs(&self) -> Self {
-    FeelYearsAndMonthsDuration(self.0.abs())
+    FeelYearsAndMonthsDuration(self.0.saturating_abs())
   }
 }
 
 impl std::fmt::Display for FeelYearsAndMonthsDuration {
   fn fmt(&self, f: &mut std::fmt::Formatter<'_>) -> std::fmt::Result {
     let sign = if self.0 < 0 { "-" } else { "" };
-    let mut month = self.0.abs();
-    let year = month / MONTHS_IN_YEAR;
-    month -= year * MONTHS_IN_YEAR;
+    let mut month = self.0.unsigned_abs();
+    let year = month / MONTHS_IN_YEAR as u64;
+    month -= year * MONTHS_IN_YEAR as u64;
     match (year > 0, month > 0) {
       (false, false) => write!(f, "P0M"),
       (false, true) => write!(f, "{}P{}M", sign, month),
